@@ -558,6 +558,29 @@ STATE_LEVEL = {"qpos", "qvel", "act", "time", "xpos", "xquat", "xmat", "xipos", 
                "contact.solreffriction", "contact.solimp", "efc.pos", "efc.margin", "efc.J", "energy", "flexvert_xpos"}
 
 
+class ForwardTap:
+  """Stage tap (seam S7): the asleep pattern of every Data right after forward() inside step(), i.e. after every wake pass and before
+  the integrator and sleep(). Tells a tree that slept through a step from one that was woken and put back to sleep within it.
+  mid[id(d)] is the (nworld, ntree) bool array of the last forward() on d. Used to scope oracles, never to decide."""
+
+  def __enter__(self):
+    from mujoco_warp._src import forward as F
+
+    self.F, self.orig, self.mid = F, F.forward, {}
+    rec = self
+
+    def tapped(m, d):
+      out = rec.orig(m, d)
+      rec.mid[id(d)] = d.tree_asleep.numpy() >= 0
+      return out
+
+    F.forward = tapped
+    return self
+
+  def __exit__(self, *a):
+    self.F.forward = self.orig
+
+
 class StageNeed:
   """Stage tap (seam S7): records the capacity need after every forward() executed inside a public op, so that the need of
   intermediate Runge-Kutta stages is seen too. Used to measure, never to decide."""
